@@ -1025,6 +1025,37 @@ def check_litnum(R, drv, tier, want=("spec", "panic")):
         if goal is None:
             R.engine_error(f"K-litnum: float result not understood: {str(v0)[:200]}")
             continue
+        # the number handed over as a numeric token is finite: `{f:?}` spells an infinity as the bare word `inf`, which SQL reads
+        # as a column name. NaN is assumed away: no source spelling lexes to it and JSON cannot carry it.
+        hb = (plain or mag)[0].bits
+        infinite = z3.And(z3.Extract(62, 52, hb) == 0x7FF, z3.Extract(51, 0, hb) == 0)
+        v, model, dt = kernels.check(e.pc, z3.And(infinite, z3.Not(nan)))
+        R.q(v, dt)
+        if v == "unknown":
+            R.engine_error("K-litnum: unknown (float, finiteness)")
+        if v == "sat":
+            neg = (model.eval(fb, model_completion=True).as_long() >> 63) & 1
+            src = "-1e999" if neg else "1e999"
+            prql = f"from t\nselect {{x = {src}}}\n"
+            r = drv.compile(prql, "sql.sqlite")
+            import sqlite3
+            got = err = None
+            if r.get("ok"):
+                try:
+                    con = sqlite3.connect(":memory:")
+                    con.execute("create table t(a)")
+                    con.execute("insert into t values (1)")
+                    got = con.execute(r["sql"]).fetchall()
+                except Exception as ex2:
+                    err = str(ex2)
+            want_f = float("-inf") if neg else float("inf")
+            if r.get("panic") or (r.get("ok") and (err or got is None or len(got) != 1 or got[0][0] != want_f)):
+                R.violation({"engine": "mirsym", "kernel": "K-litnum", "kind": "float_nonfinite"},
+                            f"K-litnum: the float literal {src} (lexed as an infinity) is emitted as {str(r.get('sql') or r.get('panic'))[:100]!r}; SQLite: {err or got}",
+                            {"prql": prql, "sql": r.get("sql"), "detail": err or str(got)})
+            elif r.get("ok"):
+                R.engine_error(f"ENCODER-MISMATCH K-litnum: the infinite float model does not reproduce through prqlc::compile + SQLite ({src})")
+            # a compile error for an out-of-range literal is a correct answer
         v, model, dt = kernels.check(e.pc, goal)
         R.q(v, dt)
         if v == "unknown":
